@@ -58,6 +58,13 @@ Theorem C02_indexed_refines : forall (K V D I C : Type) (kcmp : K -> K -> compar
 Proof. exact indexed_refines. Qed.
 Print Assumptions C02_indexed_refines.
 
+(* the list an indexed iterator presents is itself strictly sorted (so a level can be a child of
+   the merged iterator) *)
+Theorem C02_concat_blocks_sorted : forall (K V D : Type) (kcmp : K -> K -> comparison), ord_ok kcmp ->
+  forall (il : list (K * D)) (dl : D -> list (K * V)), index_ok kcmp il dl -> sorted_kv kcmp (concat_blocks il dl).
+Proof. intros K V D. exact (@concat_blocks_sorted K V D). Qed.
+Print Assumptions C02_concat_blocks_sorted.
+
 (* 4. Corollaries about what an iterator can ever show. *)
 (* strictly increasing comparer order, hence each live key once *)
 Theorem C02_live_pairs_sorted : forall c, comparer_ok c -> forall p s l,
@@ -120,6 +127,31 @@ Theorem C02_db_iterator_correct : forall (c : comparer) (p : kparams) (C : Type)
 Proof. exact db_iterator_correct. Qed.
 Print Assumptions C02_db_iterator_correct.
 
+(* the merged and the indexed machines are themselves black boxes that behave like cursors, so the
+   stack composes to any depth (a level = indexed over tables = indexed over blocks, under merged) *)
+Theorem C02_merged_is_cursor : forall (K V C : Type) (kcmp : K -> K -> comparison) (chstep : C -> move K -> C)
+  (chobs : C -> option (K * V)) (pop : list (option K) -> bool -> list nat -> option (nat * list nat))
+  (ls : list (list (K * V))) (its : list C),
+  ord_ok kcmp -> pop_ok K kcmp pop ->
+  Forall (sorted_kv kcmp) ls -> NoDup (map fst (concat ls)) ->
+  Forall2 (fun c l => refines kcmp chstep chobs c l) its ls ->
+  refines kcmp (merged_step K V C chstep chobs pop) (m_kv K V C chobs) (m_init its) (merge_lists kcmp ls).
+Proof. exact merged_is_cursor. Qed.
+Print Assumptions C02_merged_is_cursor.
+
+Theorem C02_indexed_is_cursor : forall (K V D I C : Type) (kcmp : K -> K -> comparison)
+  (istep : I -> move K -> I) (iobs : I -> option (K * D)) (mk : D -> C)
+  (dstep : C -> move K -> C) (dobs : C -> option (K * V))
+  (il : list (K * D)) (dl : D -> list (K * V)) (i0 : I) (fuel : nat),
+  ord_ok kcmp -> index_ok kcmp il dl ->
+  refines kcmp istep iobs i0 il ->
+  (forall d, In d (map snd il) -> refines kcmp dstep dobs (mk d) (dl d)) ->
+  length il < fuel ->
+  refines kcmp (indexed_step K V D I C istep iobs mk dstep dobs fuel) (x_kv K V I C dobs) (x_init i0)
+          (concat_blocks il dl).
+Proof. exact indexed_is_cursor. Qed.
+Print Assumptions C02_indexed_is_cursor.
+
 (* 7. The constants of the current source satisfy the side conditions (re-proved on every run). *)
 Theorem C02_constants_ok : dbparams_ok kp.
 Proof. exact kp_db_ok. Qed.
@@ -149,4 +181,51 @@ Proof.
   split; [repeat constructor|]. split.
   { rewrite Forall_forall. intros e He. repeat (destruct He as [<-|He]; [vm_compute; auto|]). destruct He. }
   split; [apply cursor_refines_itself|]. split; vm_compute; reflexivity.
+Qed.
+
+(* Non-vacuity of C02_merged_refines: two cursor children with interleaved keys, the scanning heap. *)
+Definition ex_children : list (list (bytes * bytes)) :=
+  [ [([1]%N, [10]%N); ([3]%N, [30]%N)]; [([2]%N, [20]%N)]; [] ].
+
+Example C02_nonvacuous_merged :
+  ord_ok (cmp bytewise) /\ pop_ok bytes (cmp bytewise) (pop_scan bytes (cmp bytewise)) /\
+  Forall (sorted_kv (cmp bytewise)) ex_children /\ NoDup (map fst (concat ex_children)) /\
+  Forall2 (fun ch l => refines (cmp bytewise) (cur_step (cmp bytewise)) cur_obs ch l)
+          (map (fun l => (l, SOI)) ex_children) ex_children /\
+  m_run bytes bytes _ (cur_step (cmp bytewise)) cur_obs (pop_scan bytes (cmp bytewise))
+        (m_init (map (fun l => (l, SOI)) ex_children)) [MLast; MPrev; MNext; MNext; MPrev] =
+  Some [(true, Some ([3]%N, [30]%N)); (true, Some ([2]%N, [20]%N)); (true, Some ([3]%N, [30]%N));
+        (false, None); (true, Some ([3]%N, [30]%N))].
+Proof.
+  assert (Hok : ord_ok (cmp bytewise)) by (apply cmp_ord_ok; exact bytewise_ok).
+  split; [exact Hok|]. split; [apply pop_scan_ok; exact Hok|].
+  split; [repeat constructor|].
+  split.
+  { cbn. repeat constructor; cbn; intros H; repeat (destruct H as [H|H]; [discriminate|]); exact H. }
+  split; [repeat constructor; apply cursor_refines_itself|].
+  vm_compute. reflexivity.
+Qed.
+
+(* Non-vacuity of C02_indexed_refines: three blocks, the middle one empty. *)
+Definition ex_index : list (bytes * list (bytes * bytes)) :=
+  [ ([2]%N, [([1]%N, [10]%N); ([2]%N, [20]%N)]); ([5]%N, []); ([9]%N, [([7]%N, [70]%N)]) ].
+
+Example C02_nonvacuous_indexed :
+  index_ok (cmp bytewise) ex_index (fun d => d) /\
+  x_run bytes bytes _ _ _ (cur_step (cmp bytewise)) cur_obs (fun d => (d, SOI)) (cur_step (cmp bytewise)) cur_obs
+        4 (x_init (ex_index, SOI)) [MSeek [3]%N; MPrev; MNext; MNext; MLast] =
+  Some [(true, Some ([7]%N, [70]%N)); (true, Some ([2]%N, [20]%N)); (true, Some ([7]%N, [70]%N));
+        (false, None); (true, Some ([7]%N, [70]%N))].
+Proof.
+  split; [|vm_compute; reflexivity].
+  unfold index_ok, ex_index. split; [repeat constructor|]. split.
+  { intros e [<-|[<-|[<-|[]]]]; cbn; repeat constructor. }
+  split.
+  { intros e x [<-|[<-|[<-|[]]]]; cbn; intros H; repeat (destruct H as [<-|H]; [vm_compute; discriminate|]); destruct H. }
+  intros a e b x H e' He' Hx.
+  destruct a as [|a0 [|a1 [|a2 a]]]; cbn in H; inversion H; subst; cbn in He'.
+  - destruct He' as [<-|[<-|[]]]; cbn in Hx; [destruct Hx|destruct Hx as [<-|[]]; vm_compute; reflexivity].
+  - destruct He' as [<-|[]]. cbn in Hx. destruct Hx as [<-|[]]. vm_compute. reflexivity.
+  - destruct He'.
+  - destruct a; discriminate.
 Qed.
